@@ -1196,8 +1196,25 @@ static void caseTub(Rng& r, Ctx& c, const Cfg& cfg)
     }
   }
   if (cfg.cond && !cfg.neighMoving) krigResidual(c, cfg, A, tk, freeS);
-  ranksOracle(c, cfg, A, nvar, nbs, colOf, freeS, cls);
-  reproOracles(r, c, cfg, A, cls, freeS);
+  // "different seeds or simulation ranks produce different realisations" is only asserted where two independent realisations
+  // coincide with probability ~0: some structures (exponential, stable, Matern of low order, ...) are spread along a band as a
+  // piecewise-constant +-1 process, and with a few bands and a range that is long against the field two realisations are equal
+  // on all targets with a probability of up to 2^-nbtuba (seen once in 10 seeds x 1000 cases: 1-D, one band, exponential).
+  // Asserted when a nugget is present, or every structure is spread by a continuous random-phase / dilution process (the list
+  // used for the kriging residual), or there are at least 30 bands.
+  bool differAsserted = cfg.nbtuba >= 30;
+  {
+    bool allSmooth = true;
+    for (auto& cv : cfg.model.covs)
+    {
+      if (cv.type == "NUGGET") differAsserted = true;
+      if (!(cv.type == "GAUSSIAN" || cv.type == "CUBIC" || cv.type == "SINCARD" || cv.type == "BESSELJ" || cv.type == "NUGGET")) allSmooth = false;
+    }
+    if (allSmooth) differAsserted = true;
+  }
+  if (differAsserted) ranksOracle(c, cfg, A, nvar, nbs, colOf, freeS, cls);
+  else if (nbs > 1) c.skip("ranks-differ:piecewise-constant-band-process-with-few-bands");
+  reproOracles(r, c, cfg, A, cls, freeS, !differAsserted);
 }
 
 static void caseFft(Rng& r, Ctx& c, const Cfg& cfg)
